@@ -442,8 +442,12 @@ def check(ctx):
     for key in ('SSASimulator', 'DelaySSASimulator', 'VolumeSSASimulator', 'DelayVolumeSSASimulator'):
         c05.check_loop(sub, key)
         c09.check_loop(sub, key)
+    # ... and it needs the initial condition itself to survive earlier runs: every simulator works on a copy of the interface's initial
+    # state and never writes into arrays it shares with the interface or the model (C08 R8.4)
+    from . import c08
+    c08.check_copies(sub)
     for rule, key, ok, where, what, detail in sub.got:
-        if rule in ('R5.2-record-before-update', 'R5.2-record-condition', 'R9.3-rules-first'):
+        if rule in ('R5.2-record-before-update', 'R5.2-record-condition', 'R9.3-rules-first', 'R8.4-work-on-copies'):
             ctx.ob('R7.4-first-row', '%s/%s' % (rule, key), ok, where, what, detail)
     # "never fails from inside": what the simulators call on model objects must be implemented for every concrete class -
     # rule operations in plain and volume mode (C09 R9.2-operation-slot), re-emitted here
